@@ -12,6 +12,7 @@ import PygProofs.Lemmas.MonthLemmas
 import PygProofs.Lemmas.DateLemmas
 import PygProofs.Lemmas.DateStrLemmas
 import PygProofs.Lemmas.DateTextLemmas
+import PygProofs.Lemmas.AmbiguityLemmas
 
 namespace Pyg.Props.C04
 open Pyg Pyg.Bump Pyg.DateParse Pyg.Gen Pyg.Greg
@@ -482,7 +483,54 @@ theorem ymd_of_iso_text (uk : Bool) (y m d : Nat) (v : Valid y m d) (yy mm dd tm
 
 example : ymdCs true "13/01/2000 10:30".toList = some (.ok (mkDate 2000 1 13)) := eq_of_okView (by decide +kernel)
 
-/-- the matcher of the model is the `ambiguity` regex of the source (a changed regex breaks this theorem) -/
+/-! ### the model's matcher against the SEMANTICS of the `ambiguity` regex and of `int(t[:2]...)` -/
+
+/-- for every text the scanner reads at all, the `ambiguous` flag of the reading is set exactly when the text matches the
+regex (`MatchesAmbiguity`: starts with 1-2 digits, separator, 1-2 digits, separator, 2-4 digits — an independent
+transcription as a decomposition of the text).  A matcher that was too narrow or too wide on read texts would break this. -/
+theorem ambiguous_iff (cs : List Char) (p : Parsed) (h : parseCs cs = some p) : p.ambiguous = true ↔ MatchesAmbiguity cs := by
+  unfold parseCs at h
+  constructor
+  · intro ha
+    obtain ⟨a, la, b, lb, y, rest, s1, s2, htk, hla, hlb, hs1, hs2, _⟩ := parseTokens_amb_shape _ p h ha
+    obtain ⟨d1, r1, e1, l1, g1, _, _, hl1, t1⟩ := scan_inv_num _ _ _ _ _ htk
+    obtain ⟨r2, e2, t2⟩ := scan_inv_sep _ _ _ _ t1.symm
+    obtain ⟨d3, r3, e3, l3, g3, _, _, hl3, t3⟩ := scan_inv_num _ _ _ _ _ t2.symm
+    obtain ⟨r4, e4, t4⟩ := scan_inv_sep _ _ _ _ t3.symm
+    obtain ⟨d5, r5, e5, l5, g5, _, _, hl5, _⟩ := scan_inv_num _ _ _ _ _ t4.symm
+    refine ⟨d1, d3, d5, r5, s1, s2, ?_, ⟨l1, by omega, g1⟩, ⟨l3, by omega, g3⟩, ⟨by omega, by omega, g5⟩, hs1, hs2⟩
+    rw [e1, e2, e3, e4, e5]
+  · rintro ⟨a, b, y, rest, s1, s2, rfl, ⟨la1, la2, ga⟩, ⟨lb1, lb2, gb⟩, ⟨ly1, ly2, gy⟩, hs1, hs2⟩
+    have p1 := sep_props s1 hs1
+    have p2 := sep_props s2 hs2
+    have na : IsNumeral 2 a := ⟨by intro e; rw [e] at la1; simp at la1, la2, ga⟩
+    have nb : IsNumeral 2 b := ⟨by intro e; rw [e] at lb1; simp at lb1, lb2, gb⟩
+    have hl : a.length + b.length + y.length + rest.length + 2 + 1 = (a ++ s1 :: (b ++ s2 :: (y ++ rest))).length + 1 := by
+      simp only [List.length_append, List.length_cons]; omega
+    rw [← hl] at h
+    rw [scan_numeral _ (by omega) 2 a _ na (ndh_cons _ _ p1.1), scan_sep _ (by omega) _ _ p1.1 p1.2] at h
+    rw [scan_numeral _ (by omega) 2 b _ nb (ndh_cons _ _ p2.1), scan_sep _ (by omega) _ _ p2.1 p2.2] at h
+    match y, ly1, gy with
+    | y0 :: ys, _, gy =>
+      obtain ⟨v, l, ts, e⟩ := scan_digit_head (a.length + b.length + (y0 :: ys).length + rest.length + 2 + 1 - 1 - 1 - 1 - 1)
+        (by simp only [List.length_cons]; omega) y0 (ys ++ rest) (gy y0 (by simp))
+      rw [List.cons_append, e] at h
+      exact (parseTokens_numeric _ _ _ _ _ _ _ _ _ p h la2).1
+
+/-- … and its `first` number is `int(t[:2].replace(sep, ''))`: the value of the digits among the first two characters -/
+theorem ambiguous_first (cs : List Char) (p : Parsed) (h : parseCs cs = some p) (ha : p.ambiguous = true) : p.first = firstTwo cs := by
+  unfold parseCs at h
+  obtain ⟨a, la, b, lb, y, rest, s1, s2, htk, hla, hlb, hs1, hs2, hf⟩ := parseTokens_amb_shape _ p h ha
+  obtain ⟨d1, r1, e1, l1, g1, _, hv1, hl1, t1⟩ := scan_inv_num _ _ _ _ _ htk
+  obtain ⟨r2, e2, t2⟩ := scan_inv_sep _ _ _ _ t1.symm
+  rw [hf, e1, e2, firstTwo_numeral d1 r2 s1 l1 (by omega) g1 (sep_props s1 hs1).1, hv1]
+
+example : MatchesAmbiguity "13/1/2000 10:30".toList :=
+  ⟨"13".toList, "1".toList, "2000".toList, " 10:30".toList, '/', '/', rfl, by decide, by decide, by decide, rfl, rfl⟩
+example : firstTwo "1 13 2000".toList = 1 ∧ firstTwo "13.01.2000".toList = 13 := by decide
+
+/-- the regex SOURCE the matcher was written for is the one in the code (a changed regex text breaks this theorem; what the
+matcher does is pinned to the regex semantics by `ambiguous_iff`) -/
 theorem ambiguity_regex_is_modelled : Gen.re_ambiguity = "^[0-9]{1,2}[-/ .][0-9]{1,2}[-/ .][0-9]{2,4}" := rfl
 
 /-! ### dt(dt2str(t)) == t -/
